@@ -378,7 +378,7 @@ Verdict judgeIndep(const Case& c) {
 
   int emptyAt = (int)c.I("emptyat", -1);
   if (emptyAt >= 0) ST.count("with_all_empty_group");
-  auto run = [&](const std::vector<int>& order, bool together) {
+  auto run = [&](const std::vector<int>& order, bool together, double delta) {
     Paths64 result;
     auto exec = [&](const std::vector<int>& idxs) {
       ClipperOffset co(ml, at, false, rev);
@@ -403,21 +403,41 @@ Verdict judgeIndep(const Case& c) {
   };
   std::vector<int> order;
   for (int k = 0; k < n; ++k) order.push_back(k);
-  Paths64 alone = run(order, false);
+  Paths64 alone = run(order, false, delta);
   v.evals = 0;
+  // 0: identical vertex lists, 1: same region up to slivers, 2: regions differ
+  auto compare = [&](const Paths64& tog, const Paths64& al) {
+    if (tog == al) return 0;
+    Paths64 both = tog;
+    both.insert(both.end(), al.begin(), al.end());
+    O::Samples S = O::faceSamples(O::segsOf(both), 2.5L, 3000);
+    for (auto& pt : S.pts) if (O::winding(pt, tog).w != O::winding(pt, al).w) return 2;
+    return 1;
+  };
   do {
-    Paths64 tog = run(order, true);
+    Paths64 tog = run(order, true, delta);
     v.evals++;
     if (tog != alone) {
       // KF-C12-b: the clean-up union rounds crossing points per scanbeam, and distant paths add scanlines, so the
       // vertex lists may differ by unit-sized slivers.  Differences confined to within 2.5 units of the result
-      // boundaries are that artefact; a different REGION (wrong caps, width, sign, missing path) is a violation.
-      Paths64 both = tog;
-      both.insert(both.end(), alone.begin(), alone.end());
-      O::Samples S = O::faceSamples(O::segsOf(both), 2.5L, 3000);
-      bool same = true;
-      for (auto& pt : S.pts) if (O::winding(pt, tog).w != O::winding(pt, alone).w) { same = false; break; }
-      if (same) { v.known = "KF-C12-b"; ST.count("joint_result_differs_only_by_slivers"); continue; }
+      // boundaries are that artefact.
+      int cmp = compare(tog, alone);
+      if (cmp == 1) { v.known = "KF-C12-b"; ST.count("joint_result_differs_only_by_slivers"); continue; }
+      // A larger region difference can still be the union's lost-hole artefact (KF-ENG-a), which depends on the scanline
+      // structure and therefore on the presence of the distant paths.  It is isolated in delta; state carried from one
+      // path / group to the next (wrong caps, width, sign, missing path) differs for every delta.
+      {
+        double ad = std::fabs(delta), sg = delta < 0 ? -1.0 : 1.0;
+        int judged = 0, bad = 0;
+        bool farBad = false;
+        for (double pd : {0.37, -0.37, 0.73, -0.73, 1.9, -1.9, 3.7, -3.7, 6.1, -6.1}) {
+          double d2 = ad + pd;
+          if (d2 < 0.55) continue;
+          ++judged;
+          if (compare(run(order, true, sg * d2), run(order, false, sg * d2)) == 2) { ++bad; if (std::fabs(pd) > 3) farBad = true; }
+        }
+        if (ad >= 0.5 && judged >= 3 && bad * 2 <= judged && !farBad) { v.known = "KF-ENG-a"; ST.count("joint_result_differs_by_union_artefact_isolated_in_delta"); continue; }
+      }
       std::string o;
       for (int i : order) o += std::to_string(i);
       v.fail(std::string(oneGroup ? "paths of one group" : "groups") + " too far apart to interact are not offset as they are alone (order " + o + ")");
